@@ -1,0 +1,17 @@
+//go:build verif
+// +build verif
+
+package auth
+
+// VerifAge moves the expiry times of the token pair that contains `token` by delta seconds
+// (negative = older), so that expiry can be exercised without waiting.
+func (tm *TokenManager) VerifAge(token string, accessDelta, refreshDelta int64) bool {
+	ti, ok := tm.tokens.Load(token)
+	if !ok {
+		return false
+	}
+	t := ti.(*Token)
+	t.AExp += accessDelta
+	t.RExp += refreshDelta
+	return true
+}
